@@ -65,6 +65,14 @@ def constructed(rng):
                             c2 = c + rng.choice((1, -1, 5 * P10[s - 1]))
                             if abs(c2) <= M:
                                 out.append("toint %s %s" % (tt, G.fD(c2, s)))
+    # integral values drawn over the whole coefficient range at every scale (trailing fractional zeros), and the seams
+    for s in range(1, 19):
+        for _ in range(1200 if s >= 15 else 150):
+            q = rng.randrange(0, M // P10[s] + 1)
+            c = q * P10[s] * rng.choice((1, -1))
+            out.append("toint %s %s" % (rng.choice(TYPES), G.fD(c, s)))
+        for c in G.split_values(rng, s, 2):
+            out.append("toint %s %s" % (rng.choice(TYPES), G.fD(c * rng.choice((1, -1)), s)))
     out.append("fromint u128:%d" % M)
     out.append("fromint u128:%d" % (M + 1))
     out.append("fromint u128:%d" % ((1 << 128) - 1))
